@@ -324,6 +324,39 @@ def corpus():
             steps.append({"inst": 0, "via": "str", "alpha": DEFAULT_ALPHA})  # the iterator's last frame stays selected
             steps.append({"inst": 0, "via": "iter", "spec": "1.1#", "alpha": None, "frames": [0, len(pages) - 1, 1]})
             cs.append(_seq([{"cls": "block" if source == "file" else "sub", "img": img, "source": source, "cells": [4, 2]}], steps))
+    cs += lazy_corpus()
+    return cs
+
+
+def lazy_corpus():
+    """Sources behind a lazy / configurable decoder, every kind of hand-over: thumbnail renders (1/8, 1/4,
+    1/2 of the pixel size) followed by a render at the image's own pixel size and the other way round, on
+    one instance; the same for the two frames of an MPO incl. the image iterator."""
+    cs = []
+    jpg = {"mode": "RGB", "size": [16, 16], "seed": 41, "kind": "random", "alphas": [255], "container": "jpeg", "quality": 95}
+    grey = dict(jpg, mode="L", seed=42, size=[16, 8], kind="runs", quality=90)
+    wide = dict(jpg, seed=43, size=[32, 16], kind="bands", quality=100, subsampling=0)
+    page = {"mode": "RGB", "size": [16, 16], "seed": 44, "kind": "random", "alphas": [255]}
+    mpo = {"pages": [page, dict(page, seed=45, kind="runs")], "container": "mpo", "quality": 95}
+    for source in ("pil-file", "pil", "file"):
+        for img, order in ((jpg, [8, 1, 4, 1]), (grey, [2, 1, 1, 4]), (wide, [1, 8, 2, 1])):
+            w, h = img["size"]
+            steps = [{"inst": 0, "via": ["renderer", "format", "str", "renderer"][n % 4], "size": [w // d, h // (2 * d)],
+                      "alpha": [None, None, DEFAULT_ALPHA, "#102030"][n % 4], **({"spec": "1.1#"} if n % 4 == 1 else {})}
+                     for n, d in enumerate(order)]
+            cs.append(_seq([{"cls": "block", "img": img, "source": source, "cells": [w // order[0], h // (2 * order[0])]}], steps))
+        steps = [{"inst": 0, "seek": 1, "via": "renderer", "size": [4, 2], "alpha": None},
+                 {"inst": 0, "seek": 1, "via": "renderer", "size": [16, 8], "alpha": None},
+                 {"inst": 0, "seek": 0, "via": "str", "size": [2, 1], "alpha": DEFAULT_ALPHA},
+                 {"inst": 0, "via": "iter", "spec": "1.1#", "alpha": None, "size": [16, 8], "frames": [0, 1]},
+                 {"inst": 0, "seek": 0, "via": "format", "spec": "1.1", "size": [16, 8], "alpha": DEFAULT_ALPHA}]
+        cs.append(_seq([{"cls": "sub", "img": mpo, "source": source, "cells": [4, 2]}], steps))
+    # one file through two kinds of hand-over in one process
+    cs.append(_seq([{"cls": "block", "img": jpg, "source": "file", "cells": [4, 2]},
+                    {"cls": "subsub", "img": jpg, "source": "pil-file", "cells": [4, 2]}],
+                   [{"inst": 0, "via": "renderer", "alpha": None}, {"inst": 1, "via": "renderer", "alpha": None},
+                    {"inst": 1, "via": "renderer", "alpha": None, "size": [16, 8]},
+                    {"inst": 0, "via": "renderer", "alpha": None, "size": [16, 8]}]))
     return cs
 
 
@@ -402,7 +435,8 @@ def judge(cases, tag, impl=None):
      "step": index of the first offending driver step or None, "lexerr": message or None, "reqs": [...]}."""
     if impl is None:
         impl = core.run_impl_parallel("impl_render.py", cases)
-    verdicts = [{"code": 0, "step": None, "lexerr": None, "reqs": [], "renders": 0, "at_resolution": 0} for _ in cases]
+    verdicts = [{"code": 0, "step": None, "lexerr": None, "reqs": [], "renders": 0, "at_resolution": 0, "resampled": 0,
+                 "caller": None} for _ in cases]
     terms, owner, errors = [], [], []
     for i, (c, r) in enumerate(zip(cases, impl)):
         v = verdicts[i]
@@ -411,6 +445,9 @@ def judge(cases, tag, impl=None):
             continue
         reqs = requests(c, r)
         v["reqs"] = reqs
+        for rec in r.get("caller_sources") or []:
+            if not rec.get("ok") and v["caller"] is None:
+                v["caller"] = caller_msg(c, rec)
         table, elems, keys = {}, [], {}
         for q in reqs:
             j, st = q["step"], c["session"][q["step"]]
@@ -444,6 +481,13 @@ def judge(cases, tag, impl=None):
                 table[key] = f"(({key[0]}, {key[1]}, ({w}, {h}))%nat, {frame_term(sr['frame_mode'], sr['src'], w)})"
                 sr["at_resolution"] = True
                 v["at_resolution"] += 1
+            elif "src_box" in sr and len(sr["src_box"]) == 2 * w * h and sr.get("frame_mode") in NO_ALPHA_MODES:
+                # off render resolution, a frame without an alpha channel: "the image at render resolution" is
+                # the full fresh decode, converted and BOX-resampled (Pillow's resampling, not the library's decode)
+                key = (st["inst"], sr["frame"], w, h)
+                table[key] = f"(({key[0]}, {key[1]}, ({w}, {h}))%nat, {frame_term(sr['frame_mode'], sr['src_box'], w)})"
+                sr["resampled"] = True
+                v["resampled"] += 1
             kid = keys.setdefault(request_key(c, st, sr, q["size"]), len(keys))
             rw, rh = sr["rendered_size"]
             obs = (f"{{| o_key := {kid}; o_w := {rw}; o_h := {rh}; o_amode := {R.b(sr['alpha_mode'])}; "
@@ -468,7 +512,20 @@ def judge(cases, tag, impl=None):
 
 
 def failing(v):
-    return v["lexerr"] is not None or bool(v["code"] & 30)
+    return v["lexerr"] is not None or bool(v["code"] & 30) or v.get("caller") is not None
+
+
+def caller_msg(case, rec):
+    inst = case["instances"][rec["inst"]]
+    if "error" in rec:
+        what = f"can no longer be read ({rec['error']})"
+    elif rec.get("size") != rec.get("want_size"):
+        what = (f"is now a {rec['size'][0]}x{rec['size'][1]} image (frame {rec.get('frame')}; the same source opened afresh "
+                f"decodes to {rec['want_size'][0]}x{rec['want_size'][1]} pixels)")
+    else:
+        what = f"no longer has the pixels of a fresh full decode (frame {rec.get('frame')}: {rec.get('ndiff')} pixels differ)"
+    return (f"after the sequence the PIL image the caller handed in for instance #{rec['inst']} ({inst['source']}) {what}: "
+            "the library reconfigured / degraded a caller-supplied image")
 
 
 def concrete(case, res):
@@ -528,6 +585,8 @@ def why(case, verdict):
         return verdict["lexerr"]
     code, e = verdict["code"], verdict.get("elem")
     parts = []
+    if verdict.get("caller") and not code & 30:
+        return verdict["caller"]
     if code & 2:
         parts.append("the render violates the rectangle contract")
     if code & 4:
@@ -548,6 +607,8 @@ def why(case, verdict):
                     twin = q2["step"] + 1
         parts.append("it shows other pixels than an earlier EQUAL request of the sequence (same image content, frame, size and "
                      "settings)" + (f": request {twin}" if twin and e is not None and not code & 14 else ""))
+    if verdict.get("caller"):
+        parts.append(verdict["caller"])
     return "; ".join(parts) or f"code {code}"
 
 
@@ -557,7 +618,8 @@ def source_diff(case, st, sr):
     has_alpha = sr.get("frame_mode") not in NO_ALPHA_MODES
     term_bg = st.get("term_bg", case.get("term_bg")) or [0, 0, 0]
     amode = sr.get("alpha_mode", False)
-    for k, (s, c, av) in enumerate(zip(sr["src"], sr["rgb"], sr["a"])):
+    resampled = bool(sr.get("resampled"))
+    for k, (s, c, av) in enumerate(zip(sr["src_box"] if resampled else sr["src"], sr["rgb"], sr["a"])):
         shown = "terminal background" if amode and av == 0 else list(c)
         if alpha is None or not has_alpha:
             want = list(s[:3])
@@ -567,8 +629,10 @@ def source_diff(case, st, sr):
         else:
             want = "terminal background" if s[3] < round(float(alpha) * 255) else [composite(s[i], s[3], term_bg[i]) for i in range(3)]
         if shown != want:
-            return (f"pixel {k} of frame {sr.get('frame')} (mode {sr.get('frame_mode')}): source {s} under alpha setting {alpha!r} "
-                    f"must show {want}, shows {shown}")
+            return (f"pixel {k} of frame {sr.get('frame')} (mode {sr.get('frame_mode')}"
+                    + (f", the {sr['src_size'][0]}x{sr['src_size'][1]} source decoded in full and BOX-resampled to render "
+                       f"resolution {sr['render_px'][0]}x{sr['render_px'][1]}" if resampled else "")
+                    + f"): source {s} under alpha setting {alpha!r} must show {want}, shows {shown}")
     return None
 
 
@@ -577,7 +641,7 @@ def describe(case, res=None):
     for k, i in enumerate(case["instances"]):
         img = i["img"]
         what = (f"{img.get('container')}[{','.join(p['mode'] for p in img['pages'])}]{img['pages'][0]['size']}" if "pages" in img
-                else f"{img['mode']}{img['size']}/{img.get('kind')}")
+                else f"{img.get('container', '')}{img['mode']}{img['size']}/{img.get('kind')}")
         insts.append(f"#{k} {i['cls']}({what}, {i['source']}, cells={i['cells']})")
     parts = []
     for j, st in enumerate(case["session"]):
